@@ -55,6 +55,7 @@ pub open spec fn kvvs_of(es: Seq<(String, (u64, Vec<u8>))>) -> Seq<KVV> { es.map
 
 //@type vls-persist/src/kvv/cloud.rs :: CloudKVVStore
 
+pub open spec fn next_local_version(m: StoreView, k: Seq<char>) -> u64 { if m.dom().contains(k) { (m[k].0 + 1) as u64 } else { 0 } }
 pub open spec fn log_view<L: KVVStore>(c: CloudKVVStore<L>) -> Option<StoreView> {
     match c.commit_log.val { Some(m) => Some(m@), None => None }
 }
@@ -83,6 +84,24 @@ impl<L: KVVStore> CloudKVVStore<L> {
         r.is_ok() ==> final(self).commit_log.val.is_some() && (
             log_view(*final(self))->Some_0 == log_view(*old(self))->Some_0.insert(key@, (version, value))
             || log_view(*final(self)) == log_view(*old(self))),                                                          //[C16.cloud.put-logs-exactly-this]
+        // a write above the local version (or of a locally new key) IS staged: it becomes the pending mutation of the key
+        r.is_ok() && (!old(self).local.kvv_view().dom().contains(key@) || version > old(self).local.kvv_view()[key@].0) ==>
+            log_view(*final(self))->Some_0 == log_view(*old(self))->Some_0.insert(key@, (version, value)),                //[C16.cloud.higher-version-is-staged]
+//@sub /let commit_log = self\.commit_log\.val\.as_mut\(\)\.vx_expect\(\);/ => 
+//@sub /\bcommit_log\./ => self.commit_log.val.as_mut().vx_expect().
+//@sub /existing\.1 != value/ => !vx_vec_eq(&existing.1, &value)
+//@end
+
+// the same body once more, under the clause the property text asks for and the real code does not meet (known finding
+// C16 / put_with_version): kept apart so that the contract above stays verified
+//@fn vls-persist/src/kvv/cloud.rs :: impl<L: KVVStore> KVVStore for CloudKVVStore<L> :: put_with_version props=C16 as=put_with_version_staged_view
+//@sigsub /&self/ => &mut self
+    requires old(self).commit_log.val.is_some(),
+    ensures
+        // (from the property text: "never lowers a version") the version the backend itself reports for the key - its own
+        // pending write if there is one (a transaction reads its own writes) - is not lowered by a write.  FAILS on the real body: the check is made against the local store only (known finding)
+        log_view(*old(self))->Some_0.dom().contains(key@) ==> final(self).commit_log.val.is_some() && log_view(*final(self))->Some_0.dom().contains(key@)
+            && log_view(*final(self))->Some_0[key@].0 >= log_view(*old(self))->Some_0[key@].0,                          //[C16.cloud.never-lowers-staged-version]
 //@sub /let commit_log = self\.commit_log\.val\.as_mut\(\)\.vx_expect\(\);/ => 
 //@sub /\bcommit_log\./ => self.commit_log.val.as_mut().vx_expect().
 //@sub /existing\.1 != value/ => !vx_vec_eq(&existing.1, &value)
@@ -135,6 +154,29 @@ impl<L: KVVStore> CloudKVVStore<L> {
             }
 //@proof before /self\.local\.put_batch\(kvvs\)\?;/
         proof { assert(vx_es@.take(vx_es@.len() as int) =~= vx_es@); }
+//@end
+
+//@fn vls-persist/src/kvv/cloud.rs :: impl<L: KVVStore> KVVStore for CloudKVVStore<L> :: put props=C16 optclosures
+//@sigsub /&self/ => &mut self
+    requires old(self).commit_log.val.is_some(),
+        old(self).local.kvv_view().dom().contains(key@) ==> old(self).local.kvv_view()[key@].0 < u64::MAX,
+    ensures
+        final(self).local.kvv_view() == old(self).local.kvv_view(),                                                      //[C16.cloud.put-local-untouched]
+        // the pending mutation of the key is the value at the version after the LOCAL (committed) one; several plain
+        // writes of a key in one transaction share that version and the last one wins
+        r.is_ok() ==> log_view(*final(self))->Some_0 == log_view(*old(self))->Some_0.insert(key@, (next_local_version(old(self).local.kvv_view(), key@), value)),   //[C16.cloud.put-stages-next-version]
+//@end
+
+//@fn vls-persist/src/kvv/cloud.rs :: impl<L: KVVStore> KVVStore for CloudKVVStore<L> :: delete props=C16
+//@sigsub /&self/ => &mut self
+    requires old(self).commit_log.val.is_some(),
+        old(self).local.kvv_view().dom().contains(key@) ==> old(self).local.kvv_view()[key@].0 < u64::MAX,
+    ensures
+        final(self).local.kvv_view() == old(self).local.kvv_view(),                                                      //[C16.cloud.delete-local-untouched]
+        // a delete stages the empty value (a tombstone) at the next version: never a lower one
+        r.is_ok() ==> log_view(*final(self))->Some_0.dom().contains(key@)
+            && log_view(*final(self))->Some_0[key@].0 == next_local_version(old(self).local.kvv_view(), key@)
+            && log_view(*final(self))->Some_0[key@].1@ == Seq::<u8>::empty(),                                           //[C16.cloud.delete-is-a-tombstone]
 //@end
 
 } // impl
